@@ -35,6 +35,7 @@ THD(t, g, body, dl) == [k |-> "t", t |-> t, gap |-> g, lb |-> FALSE, semi |-> FA
                         hd |-> <<[body |-> body, dl |-> dl]>>, nlk |-> ""]
 NLF    == [k |-> "t", t |-> "\n", gap |-> "sp", lb |-> FALSE, semi |-> FALSE, hd |-> <<>>, nlk |-> "sep"]   \* the newline that ends the command line
 TC(t)  == [k |-> "t", t |-> t, gap |-> "sp",  lb |-> FALSE, semi |-> FALSE, hd |-> <<>>, nlk |-> "cs"]   \* the ")" of $( ) after a newline: part of a word
+TCA(t) == [k |-> "t", t |-> t, gap |-> "adj", lb |-> FALSE, semi |-> FALSE, hd |-> <<>>, nlk |-> "cs"]   \* the ")" of $( ) touching the last word
 M(m)   == [k |-> "m", m |-> m]
 
 (* nonterminal: name, depth, top (not inside a compound command), nh (no    *)
@@ -100,9 +101,9 @@ PartAlts(nt, g, second) ==
   \o [i \in 1..Len(PEOps) |->
         A(1, <<TG("${v" \o PEOps[i], g), M("pe["), M("braces"), M("name:v"), M("peop:" \o PEOps[i]),
                P(nt, NT("peword", nt.d + 1, FALSE, TRUE, TRUE, "")), TA("}"), M("]pe")>>)]
-  \o << A(1, <<TG("$(", g), M("cs$["), InPar(NT("cslist", nt.d + 1, FALSE, TRUE, TRUE, "")), TA(")"), M("]cs")>>),
+  \o << A(1, <<TG("$(", g), M("cs$["), InPar(NT("cslist", nt.d + 1, FALSE, TRUE, TRUE, "")), TCA(")"), M("]cs")>>),
         A(1, <<TG("`", g), M("cs`["), NT("cslist", nt.d + 1, FALSE, TRUE, TRUE, ""), TA("`"), M("]cs")>>),
-        A(1, <<TG("$(", g), M("cs$["), InPar(NT("cshd", nt.d + 1, FALSE, FALSE, TRUE, "")), T(")"), M("]cs")>>) >>
+        A(1, <<TG("$(", g), M("cs$["), InPar(NT("cshd", nt.d + 1, FALSE, FALSE, TRUE, "")), TC(")"), M("]cs")>>) >>
 
 (***************************************************************************)
 (* Here-document pool: [op, word (source of the delimiter word), wm (its   *)
@@ -261,7 +262,7 @@ Alts(nt) ==
                    \o <<M("]w"), TA("))"), M("]arith"), M("]c"), M("]pl"), M("]ao"), M("]ln"), NLF>>),
             \* inside a command substitution, followed by one outside
             A(1, <<M("ln["), M("ao["), M("pl["), M("c["), M("simple["), T("a")>> \o WLit("a") \o <<M("w["), T("$("), M("cs$["), M("ln["), M("ao["), M("pl[")>> \o CatA
-                   \o <<H, M("]c"), M("]pl"), M("]ao"), M("]ln"), NL, T(")"), M("]cs"), M("]w"), M("]simple"), H, M("]c"), M("]pl"), M("]ao"), M("]ln"), NLF>>) >>
+                   \o <<H, M("]c"), M("]pl"), M("]ao"), M("]ln"), NL, TC(")"), M("]cs"), M("]w"), M("]simple"), H, M("]c"), M("]pl"), M("]ao"), M("]ln"), NLF>>) >>
     \* ------------------------------------------------------------ printer focus (C05, C18)
     \* compound commands whose printing depends on separators and on the line structure: every combination
     \* of list terminators (; & newline) in conditions, bodies and case items, single-line and multi-line
